@@ -24,14 +24,6 @@ type idxProver struct {
 // indexExceptions: function → expression → reason. An edited expression no
 // longer matches its entry and is reported.
 var indexExceptions = map[string]map[string]string{
-	"sourceaddrs.splitSubPath": {
-		"src[:stop]":       "stop is len(src) or strings.Index(src, \"?\") > -1, both ≤ len(src)",
-		"src[offset:stop]": "offset is 0 or idx+3 with idx = Index(src[:stop], \"://\") > -1, so offset ≤ stop",
-		"src[idx + 2:]":     "idx = offset + Index(src[offset:stop], \"//\") ≥ 0 and the match is 2 bytes long, so idx+2 ≤ stop ≤ len(src)",
-		"src[:idx]":        "same idx, ≤ len(src)",
-		"subdir[idx:]":     "idx = Index(subdir, \"?\") > -1",
-		"subdir[:idx]":     "idx = Index(subdir, \"?\") > -1",
-	},
 	"ignorefiles.readRules": {
 		"rules[i]": "loop invariant: i starts at currentRuleIndex = len(rules)-1 (rules grows by one per increment) and only decreases to 0",
 	},
@@ -622,6 +614,10 @@ func (ix *idxProver) indexOK(X, idx ssa.Value, at *ssa.BasicBlock) (bool, string
 			}
 		}
 	}
+	// difference bounds: idx ≥ 0 and idx + 1 ≤ len(X) (covers descending loops `for i := len(x)-1; i >= 0; i--`)
+	if ix.ge0(idx, at, map[ssa.Value]bool{}) && ix.le(idx, 1, bterm{lenOf: X}, at, map[string]bool{}) {
+		return true, "index ≥ 0 and index+1 ≤ len by difference bounds"
+	}
 	// sort comparator
 	if prm, ok := idx.(*ssa.Parameter); ok && ix.isSortComparator(prm.Parent()) {
 		return true, "comparator index supplied by sort.Slice"
@@ -697,6 +693,13 @@ func nonNegative(v ssa.Value, seen map[ssa.Value]bool) bool {
 }
 
 func (ix *idxProver) sliceOK(s *ssa.Slice) (bool, string) {
+	if ok, why := ix.sliceOKBasic(s); ok {
+		return true, why
+	}
+	return ix.sliceByBounds(s)
+}
+
+func (ix *idxProver) sliceOKBasic(s *ssa.Slice) (bool, string) {
 	X := s.X
 	at := s.Block()
 	need := 0
@@ -802,4 +805,278 @@ func typePredicatePolarity(g *ssa.Function, T types.Type) (bool, bool) {
 		return false, false
 	}
 	return !neg, true
+}
+
+// ---------- difference-bound propagation (v + c ≤ len(S) / v + c ≤ w) ----------
+
+// bterm is the right-hand side of a bound: len(lenOf) or the int value val.
+type bterm struct {
+	lenOf ssa.Value
+	val   ssa.Value
+}
+
+func (b bterm) key() string { return fmt.Sprintf("%p/%p", b.lenOf, b.val) }
+
+// indexCall recognises strings.Index-like searches: result r satisfies
+// r == -1 or 0 ≤ r and r + len(sub) ≤ len(s).
+func indexCall(v ssa.Value) (s ssa.Value, subLen int, ok bool) {
+	cl, isCall := v.(*ssa.Call)
+	if !isCall {
+		return nil, 0, false
+	}
+	o := calleeObj(cl)
+	switch {
+	case isFunc(o, "strings", "Index") || isFunc(o, "strings", "LastIndex"):
+		if sub, isC := constString(cl.Call.Args[1]); isC {
+			return cl.Call.Args[0], len(sub), true
+		}
+		return cl.Call.Args[0], 0, true
+	case isFunc(o, "strings", "IndexByte") || isFunc(o, "strings", "IndexRune") || isFunc(o, "strings", "LastIndexByte") || isFunc(o, "strings", "IndexAny"):
+		return cl.Call.Args[0], 1, true
+	}
+	return nil, 0, false
+}
+
+// foundAt: at block `at` the search result v is known to be ≥ 0 (past v > -1,
+// v >= 0, v != -1 true edges or v == -1 / v < 0 false edges).
+func (ix *idxProver) foundAt(v ssa.Value, at *ssa.BasicBlock) bool {
+	for _, b := range ix.fn.Blocks {
+		if len(b.Instrs) == 0 {
+			continue
+		}
+		ifi, ok := b.Instrs[len(b.Instrs)-1].(*ssa.If)
+		if !ok {
+			continue
+		}
+		cond, neg := stripNot(ifi.Cond)
+		bo, ok := cond.(*ssa.BinOp)
+		if !ok || bo.X != v {
+			continue
+		}
+		k, isC := constInt(bo.Y)
+		if !isC {
+			continue
+		}
+		edge := -1
+		switch {
+		case bo.Op == token.GTR && k == -1, bo.Op == token.GEQ && k == 0, bo.Op == token.NEQ && k == -1:
+			edge = 0
+		case bo.Op == token.EQL && k == -1, bo.Op == token.LSS && k == 0:
+			edge = 1
+		}
+		if edge < 0 {
+			continue
+		}
+		if neg {
+			edge = 1 - edge
+		}
+		if guarded(at, []Edge{{b, edge}}) || (b.Succs[edge] == at && b.Succs[1-edge] != at) {
+			return true
+		}
+	}
+	return false
+}
+
+// ge0: v ≥ 0 at block at.
+func (ix *idxProver) ge0(v ssa.Value, at *ssa.BasicBlock, seen map[ssa.Value]bool) bool {
+	if seen[v] {
+		return true
+	}
+	seen[v] = true
+	switch x := v.(type) {
+	case *ssa.Const:
+		k, ok := constInt(x)
+		return ok && k >= 0
+	case *ssa.Phi:
+		for i, e := range x.Edges {
+			if !ix.ge0(e, x.Block().Preds[i], seen) {
+				// a loop variable decremented under an `i >= 0` guard at the use point
+				if ix.guardGe0(v, at) {
+					return true
+				}
+				return false
+			}
+		}
+		return true
+	case *ssa.BinOp:
+		switch x.Op {
+		case token.ADD:
+			return ix.ge0(x.X, at, seen) && ix.ge0(x.Y, at, seen)
+		case token.SUB:
+			// len(s) - k with len(s) ≥ k, or anything under an explicit ≥ 0 guard
+			if l := lenOf(x.X); l != nil {
+				if k, ok := constInt(x.Y); ok {
+					if n, _ := ix.minLen(l, at); n >= int(k) {
+						return true
+					}
+				}
+			}
+			return ix.guardGe0(v, at)
+		}
+	case *ssa.Call:
+		if lenOf(x) != nil {
+			return true
+		}
+		if _, _, ok := indexCall(x); ok {
+			return ix.foundAt(x, at)
+		}
+	}
+	return ix.guardGe0(v, at)
+}
+
+// guardGe0: an explicit `v >= 0` / `v > -1` guard dominates at.
+func (ix *idxProver) guardGe0(v ssa.Value, at *ssa.BasicBlock) bool { return ix.foundAt(v, at) }
+
+// le proves v + c ≤ B at block at.
+func (ix *idxProver) le(v ssa.Value, c int, B bterm, at *ssa.BasicBlock, seen map[string]bool) bool {
+	k := fmt.Sprintf("%p+%d<=%s", v, c, B.key())
+	if seen[k] {
+		return true // inductive hypothesis for loop-carried values
+	}
+	seen[k] = true
+	if B.val != nil && v == B.val && c <= 0 {
+		return true
+	}
+	switch x := v.(type) {
+	case *ssa.Const:
+		n, ok := constInt(x)
+		if !ok {
+			return false
+		}
+		need := int(n) + c
+		if need <= 0 {
+			if B.lenOf != nil {
+				return true
+			}
+			return ix.ge0(B.val, at, map[ssa.Value]bool{})
+		}
+		if B.lenOf != nil {
+			m, _ := ix.minLen(B.lenOf, at)
+			return m >= need
+		}
+		return false
+	case *ssa.Phi:
+		for i, e := range x.Edges {
+			if !ix.le(e, c, B, x.Block().Preds[i], seen) {
+				return false
+			}
+		}
+		return true
+	case *ssa.BinOp:
+		switch x.Op {
+		case token.ADD:
+			if n, ok := constInt(x.Y); ok {
+				return ix.le(x.X, c+int(n), B, at, seen)
+			}
+			if n, ok := constInt(x.X); ok {
+				return ix.le(x.Y, c+int(n), B, at, seen)
+			}
+			// a + b where a = Index(S[b:h], sub): a + b + len(sub) ≤ h
+			for _, pr := range [][2]ssa.Value{{x.X, x.Y}, {x.Y, x.X}} {
+				a, b := pr[0], pr[1]
+				S, sl, ok := indexCall(a)
+				if !ok || !ix.foundAtOrPhi(a, at) {
+					continue
+				}
+				ss, ok := S.(*ssa.Slice)
+				if !ok || ss.Low == nil || !sameInt(ss.Low, b) {
+					continue
+				}
+				if c > sl {
+					continue
+				}
+				if ss.High == nil {
+					if ix.lenLe(ss.X, B) {
+						return true
+					}
+					continue
+				}
+				if ix.le(ss.High, 0, B, at, seen) {
+					return true
+				}
+			}
+			return false
+		case token.SUB:
+			if n, ok := constInt(x.Y); ok {
+				return ix.le(x.X, c-int(n), B, at, seen)
+			}
+		}
+	case *ssa.Call:
+		if l := lenOf(x); l != nil {
+			// len(l) + c ≤ B
+			if c <= 0 && ix.lenLe(l, B) {
+				return true
+			}
+			return false
+		}
+		if S, sl, ok := indexCall(x); ok && ix.foundAt(x, at) {
+			// x + sl ≤ len(S)
+			if c <= sl && ix.lenLe(S, B) {
+				return true
+			}
+			return false
+		}
+	}
+	return false
+}
+
+func (ix *idxProver) foundAtOrPhi(v ssa.Value, at *ssa.BasicBlock) bool { return ix.foundAt(v, at) }
+
+// sameInt: two int values are the same SSA value (or equal constants).
+func sameInt(a, b ssa.Value) bool {
+	if a == b {
+		return true
+	}
+	ka, ok1 := constInt(a)
+	kb, ok2 := constInt(b)
+	return ok1 && ok2 && ka == kb
+}
+
+// lenLe: len(S) ≤ B.
+func (ix *idxProver) lenLe(S ssa.Value, B bterm) bool {
+	if B.lenOf != nil {
+		if sameSeq(S, B.lenOf) || canon(S) == canon(B.lenOf) {
+			return true
+		}
+		// a slice of it is not longer
+		if ss, ok := S.(*ssa.Slice); ok {
+			return ix.lenLe(ss.X, B)
+		}
+		return false
+	}
+	// B is an int value w: S = X[lo:w] has len w - lo ≤ w
+	if ss, ok := S.(*ssa.Slice); ok && ss.High != nil && sameInt(ss.High, B.val) {
+		return ss.Low == nil || ix.ge0(ss.Low, ss.Block(), map[ssa.Value]bool{})
+	}
+	return false
+}
+
+// sliceByBounds: X[lo:hi] is safe when 0 ≤ lo ≤ hi ≤ len(X) by difference bounds.
+func (ix *idxProver) sliceByBounds(s *ssa.Slice) (bool, string) {
+	if s.Max != nil {
+		return false, "three-index slice with non-trivial bounds"
+	}
+	at := s.Block()
+	X := s.X
+	if s.High != nil {
+		if !ix.le(s.High, 0, bterm{lenOf: X}, at, map[string]bool{}) {
+			return false, "cannot show high bound ≤ len of the sliced value"
+		}
+		if !ix.ge0(s.High, at, map[ssa.Value]bool{}) {
+			return false, "cannot show high bound ≥ 0"
+		}
+	}
+	if s.Low != nil {
+		if !ix.ge0(s.Low, at, map[ssa.Value]bool{}) {
+			return false, "cannot show low bound ≥ 0"
+		}
+		if s.High != nil {
+			if !ix.le(s.Low, 0, bterm{val: s.High}, at, map[string]bool{}) {
+				return false, "cannot show low bound ≤ high bound"
+			}
+		} else if !ix.le(s.Low, 0, bterm{lenOf: X}, at, map[string]bool{}) {
+			return false, "cannot show low bound ≤ len of the sliced value"
+		}
+	}
+	return true, "0 ≤ low ≤ high ≤ len by difference bounds over strings.Index results (found ⇒ index + len(needle) ≤ len(haystack))"
 }
